@@ -105,8 +105,8 @@ PROPS = {
     "C04": dict(
         level="proof",
         model_timeout=3600,
-        extra_lean_targets=["LdpcV.Props.C04Real", "LdpcV.Props.C04Table"],
-        extra_prop_files=["LdpcV/Props/C04Real.lean", "LdpcV/Props/C04Table.lean"],
+        extra_lean_targets=["LdpcV.Props.C04Real", "LdpcV.Props.C04Table", "LdpcV.Props.C04Track"],
+        extra_prop_files=["LdpcV/Props/C04Real.lean", "LdpcV/Props/C04Table.lean", "LdpcV/Props/C04Track.lean"],
         trusted_base=[KERNEL, CORR,
                       "8-bit rules: exact integer model lean/LdpcV/Model/ArithI8.lean (i8/i16 as Int with explicit overflow checks); the correction table is a "
                       "literal in the model and is compared entry by entry with the table read from the Debug text of every Rust arithmetic object",
@@ -121,8 +121,9 @@ PROPS = {
               "non-trivial = degree >= 2; distinct = distinct canonical input"),
         assumptions=COMMON_ASSUME,
         partial=["IEEE rounding of the float rules is not bounded by any theorem (real-semantics theorems + tanh-domain comparison only)",
-                 "the table-vs-real clause is proved per entry (C04Table.table_tracks_real: |table[t] - 8 ln(1+e^(-t/8))| <= 1/2 for all t <= 127); the ACCUMULATED "
-                 "tracking bound of a whole 8-bit fold against the real-valued rule is not proved"],
+                 "'within accumulated table rounding' is proved with explicit constants (C04Track): (steps)/2 units for the approximate fold, (steps) units for the "
+                 "exact-form fold, (d-2)/2 resp. (d-1) units for the emitted messages of the whole rules against the same rule text at R on inputs / 8; with "
+                 "partial hard limiting the bound is stated for emitted magnitudes below 100 only (the documented promotion)"],
     ),
     "C05": dict(
         level="proof",
